@@ -36,6 +36,16 @@ func defFor(check string) *checkDef {
 			rule: "as C02 with the whole torn-variant set, plus crash / recover / continue / crash: a seeded subset of the images of each run (biased to torn snapshot files and to instants just after snapshot persists and removals) is continued by a further simulated run with a fresh writer and more workload, whose own trace is enumerated again (depth 2, thorough 3). Oracle per image: the opening process neither dies nor panics, OpenReader/OpenWriter succeed whenever a snapshot had been completed, recovered content = exactly one abstract state (prefix of the applied batches), the recovered writer accepts a batch, reads it back, closes, and the batch survives a reopen",
 			assume: commonAssume,
 			probes: []string{"same-epoch-rewrite-after-recovery", "file-merge", "in-memory-merge"}}
+	case "C12":
+		return &checkDef{property: "C12", level: "fault_enumeration", timeout: 900 * time.Second,
+			variants: []string{"C12", "C12", "C12", "C12big"},
+			budget:   map[string]tierCfg{"quick": {48, 90}, "thorough": {3000, 1800}},
+			rule: "storage-corruption fault injection on the snapshot files simulated runs actually produce (0..many segments, with and without deleted bitmaps; every fourth run is a no-merge run of ~200 batches so that the file crosses the 4096-byte read buffer). Round trip: every produced snapshot is decoded with the exported decoder and compared (ids, types, versions, deleted sets) with what was handed to the encoder. Rejection, per chosen file: every truncation length, every single-bit flip (quick tier on files > 300 bytes: header, trailer, the 4096 boundary and a seeded sample), appended tails (1 byte, 4 bytes, a copy of itself), zero-fill, seeded garbage, every uvarint length field replaced by 2^31/2^40/2^63/2^64-1; the damaged file is the newest snapshot of an image that also holds the older intact ones; the image is opened in a child process (RLIMIT_AS) through the mmap and the non-mmap loader: no death, no panic, allocation <= 64 x directory size + 16 MiB, content = the older snapshot's state. evaluations = simulated runs; crash_images_probed = damaged images opened. Ids up to 2^64-1 and coverage-guided fuzzing of the decoder are input generation, outside this technique",
+			assume: append([]string{"CRC-32 detects every single-bit flip and every burst <= 32 bits; a truncation is accepted with probability 2^-32 per length (would be reported)"}, commonAssume...),
+			probes: []string{"snapshot-over-4096-bytes", "damaged-snapshot-with-deleted-bitmap"}}
+	case "C12big":
+		d := defFor("C12")
+		return d
 	case "C04":
 		return &checkDef{property: "C04", level: "exploration",
 			budget: map[string]tierCfg{"quick": {2500, 75}, "thorough": {100000, 1500}},
